@@ -56,6 +56,10 @@ def run_shards(mod, prop_id, tier, seed, jobs, tmp, replay_case=None):
     timeout = getattr(mod, "TIMEOUT", {}).get(tier, 600 if tier == "quick"
                                               else 6 * 3600)
     env = worker_env()
+    # str / bytes hashing (hence the iteration order of sets and dicts keyed
+    # by names) follows the seed: reproducible per seed, different between
+    # seeds; seed 0 is the interpreter's unrandomised hashing
+    env["PYTHONHASHSEED"] = str(seed % (1 << 32))
     if hasattr(mod, "worker_env"):
         env.update(mod.worker_env(tier))
     pending = list(range(n_shards))
